@@ -749,12 +749,10 @@ func (c *Ctx) ownerSinkRule() int {
 		var names []string
 		for fnName, uses := range writers {
 			names = append(names, fnName)
-			allowed := false
-			for _, o := range so.owners {
-				if o == fnName {
-					allowed = true
-				}
-			}
+			// a writer is legitimate when it is the place that applies the escaping: it tests the byte
+			// it emits (or its shift register) against 0xFF / 0xFF00. Names are not frozen: renaming or
+			// splitting the owner keeps the rule quiet as long as every writer escapes.
+			allowed := len(uses) > 0 && testsFF(uses[0].Parent())
 			if !allowed {
 				okAll = false
 				var fnv *ssa.Function
@@ -762,7 +760,7 @@ func (c *Ctx) ownerSinkRule() int {
 					fnv = uses[0].Parent()
 				}
 				c.add("OWNER-SINK", fnv, construct+" written in "+fnName, report.Violated, c.P.Pos(uses[0].Pos()),
-					"the entropy coder's byte sink is written outside "+strings.Join(so.owners, "/")+" (which "+so.why+"): bytes emitted here bypass marker escaping, so an unescaped 0xFF xx can appear in the entropy-coded data")
+					"the entropy coder's byte sink is written by a function that never tests what it emits against 0xFF (the owner "+strings.Join(so.owners, "/")+" "+so.why+"): bytes emitted here bypass marker escaping, so an unescaped 0xFF xx can appear in the entropy-coded data")
 			}
 		}
 		if okAll {
@@ -829,4 +827,32 @@ func sinkUses(fa *ssa.FieldAddr) []ssa.Instruction {
 		}
 	}
 	return out
+}
+
+// testsFF: the function compares some value with the constant 0xFF or 0xFF00 (byte-stuffing test).
+func testsFF(fn *ssa.Function) bool {
+	if fn == nil {
+		return false
+	}
+	for _, b := range fn.Blocks {
+		for _, ins := range b.Instrs {
+			bo, ok := ins.(*ssa.BinOp)
+			if !ok {
+				continue
+			}
+			switch bo.Op {
+			case token.EQL, token.NEQ, token.LSS, token.GTR, token.LEQ, token.GEQ:
+			default:
+				continue
+			}
+			for _, v := range []ssa.Value{bo.X, bo.Y} {
+				if k, ok := v.(*ssa.Const); ok && k.Value != nil && k.Value.Kind() == constant.Int {
+					if iv, ok := constant.Int64Val(k.Value); ok && (iv == 0xFF || iv == 0xFF00) {
+						return true
+					}
+				}
+			}
+		}
+	}
+	return false
 }
